@@ -8,6 +8,7 @@ import (
 	"math/rand"
 	"testing"
 
+	"golang.org/x/crypto/nacl/secretbox"
 	"google.golang.org/protobuf/proto"
 
 	"berty.tech/weshnet/v2/internal/verifkit"
@@ -83,6 +84,7 @@ func TestVerifC14(t *testing.T) {
 	nsess := verifkit.Pick(36, 1500)
 	for si := 0; si < nsess; si++ {
 		rng := verifkit.Rand(fmt.Sprintf("c14-%d", si))
+		forgedPushes, maxForgedPushes := 0, 2 // member-forged pushes per session
 		W := []int{2, 5, 100}[si%3]
 		R := []int{2, 5, 100}[(si/3)%3]
 		nsend := 1 + (si/9)%3
@@ -264,6 +266,36 @@ func TestVerifC14(t *testing.T) {
 					_ = recv.ss.UpdateOutOfStoreGroupReferences(ctx, st.sdev, k, st.g) // as MessageStore.processMessage does
 					m.seen, m.last = true, k
 					rep.Count("log_opens", 1)
+					// a fellow member (it opened the same message, so it holds its message key) pushes OTHER content under the
+					// identifier, sender and counter of this already received message
+					if forgedPushes < maxForgedPushes {
+						forgedPushes++
+						if mk, err := recv.ss.getKeyForCID(ctx, msg.id); err == nil {
+							forgedPlain := wrapPayload([]byte("pushed-by-a-fellow-member"))
+							box := secretbox.Seal(nil, forgedPlain, uint64AsNonce(k), (*[32]byte)(mk))
+							_, hdr := openHeadersAsMember(st.g, msg.data)
+							for sname, sig := range map[string][]byte{"original-signature": hdr.Sig, "no-signature": nil, "random-signature": randBytes(rng, 64)} {
+								oos, err := recv.ss.SealOutOfStoreMessageEnvelope(msg.id, &protocoltypes.MessageEnvelope{Message: box}, &protocoltypes.MessageHeaders{Counter: k, DevicePk: st.sdev, Sig: sig}, st.g)
+								if err != nil {
+									continue
+								}
+								fb, _ := proto.Marshal(oos)
+								var fplain []byte
+								var ferr error
+								if pnc, stack := verifkit.Try(func() { fplain, _, _, _, _, ferr = c14PushOpen(ctx, recv, fb) }); pnc != nil {
+									rep.Violate("C14/panic", fmt.Sprintf("OpenOutOfStoreMessage panicked: %v", pnc), map[string]interface{}{"case": wit(step), "stack": stack})
+									continue
+								}
+								rep.Eval(1)
+								rep.Distinct(fmt.Sprintf("%s/%s/%d/member-forged-push/%s", tag, st.gname, k, sname))
+								if ferr == nil && !sameBytes(fplain, msg.payload) {
+									rep.Violate("C14/forged-push-accepted", "a push payload carrying other content under the identifier, sender and counter of an already received message was opened ("+sname+")", wit(step))
+								} else {
+									rep.Count("member_forged_pushes_refused", 1)
+								}
+							}
+						}
+					}
 					continue
 				}
 				must := m.pushMust(k)
